@@ -73,6 +73,7 @@ class Flow:
                 states = self._apply({"k": "ctorinit", "field": ini["field"], "line": ini.get("line"),
                                       "written": ini.get("written", True), "init": ini.get("init")}, states, ctx)
         out = self._stmt(f.get("body"), states, ctx, loop=None)
+        self._last_throws = ctx.throws
         return out, ctx.exits
 
     # -- internals --------------------------------------------------------------
